@@ -140,24 +140,27 @@ fn observe(k: usize, case: &Value, text: &str, o: &run::Outcome, krate: &rsproj:
     ev
 }
 
-fn module(implied: bool, body: &str) -> String {
+/// `flip` exchanges the alphabetical order of the two module names, so that over the batches
+/// the EXTENSIBILITY IMPLIED module is generated both before and after its neighbour
+fn module(implied: bool, flip: bool, body: &str) -> String {
     format!(
         "Ext{} DEFINITIONS AUTOMATIC TAGS {}::= BEGIN\n{body}\nEND\n",
-        if implied { "Imp" } else { "Exp" },
+        if implied != flip { "Zz" } else { "Aa" },
         if implied { "EXTENSIBILITY IMPLIED " } else { "" }
     )
 }
 
-fn run_batch(base: usize, cases: &[Value]) -> Vec<Value> {
+fn run_batch(base: usize, cases: &[Value], force_flip: Option<bool>) -> Vec<Value> {
     let texts: Vec<String> = cases.iter().enumerate().map(|(i, c)| render(base + i, c)).collect();
     let body = |imp: bool| -> String {
         cases.iter().zip(&texts).filter(|(c, _)| c["implied"].as_bool().unwrap() == imp).map(|(_, t)| t.clone()).collect::<Vec<_>>().join("\n")
     };
     let mut srcs = vec![];
+    let flip = force_flip.unwrap_or((base / cases.len().max(1)) % 2 == 1);
     for imp in [false, true] {
         let b = body(imp);
         if !b.is_empty() {
-            srcs.push(module(imp, &b));
+            srcs.push(module(imp, flip, &b));
         }
     }
     let (o, ir) = run::compile_rasn(&srcs, run::default_config());
@@ -167,15 +170,15 @@ fn run_batch(base: usize, cases: &[Value]) -> Vec<Value> {
     }
     if cases.len() > 4 {
         let mid = cases.len() / 2;
-        let mut a = run_batch(base, &cases[..mid]);
-        a.extend(run_batch(base + mid, &cases[mid..]));
+        let mut a = run_batch(base, &cases[..mid], force_flip);
+        a.extend(run_batch(base + mid, &cases[mid..], force_flip));
         return a;
     }
     cases
         .iter()
         .enumerate()
         .map(|(i, c)| {
-            let (o, ir) = run::compile_rasn(&[module(c["implied"].as_bool().unwrap(), &texts[i])], run::default_config());
+            let (o, ir) = run::compile_rasn(&[module(c["implied"].as_bool().unwrap(), false, &texts[i])], run::default_config());
             let krate = rsproj::project(&o.generated);
             observe(base + i, c, &texts[i], &o, &krate, &ir)
         })
@@ -186,9 +189,10 @@ fn run_batch(base: usize, cases: &[Value]) -> Vec<Value> {
 pub fn drive(args: &[String]) -> i32 {
     let cases = util::read_ndjson(util::arg(args, "--cases").expect("--cases"));
     let batch: usize = util::arg(args, "--batch").and_then(|s| s.parse().ok()).unwrap_or(128);
+    let force_flip = util::arg(args, "--flip").map(|f| f == "1");
     let events = util::par_chunks(&cases, batch, util::threads(), |base, chunk| {
         run::install_panic_hook();
-        run_batch(base, chunk)
+        run_batch(base, chunk, force_flip)
     });
     util::write_ndjson(util::arg(args, "--trace").expect("--trace"), &events);
     eprintln!("c05: {} cases, {} events", cases.len(), events.len());
